@@ -52,7 +52,7 @@ def run(ctx):
         c = ssuite.SCase()
         c.ssrc, c.schema, c.value, c.origin, c.unmodelled = ssrc, gen.build(ssrc), v, "directed", None
         cases.append(c)
-    ok_cases = probes = 0
+    ok_cases = probes = usable_checked = 0
     rejected_own = []       # S accepts v but S % v rejects v
     dist = {}
     samples = []
@@ -87,6 +87,18 @@ def run(ctx):
                 rp = c.replay_dict()
                 rp.update(observed="S accepts v, S % v rejects v", expected="S % v accepts v")
                 ctx.violation("the substituted schema rejects the substituted value", rp)
+        # (a') "usable": where the original generates under every tape policy and the result accepts v, the result generates too
+        if r_accepts and pyspec.is_plain(v):
+            orig = ssuite.gen_values(ctx, c.schema)
+            if all(good for good, _g, _t in orig):
+                usable_checked += 1
+                for good, g, t in ssuite.gen_values(ctx, c.result):
+                    if not good:
+                        rp = c.replay_dict()
+                        rp.update(observed=f"fake(S % v) raised {type(g).__name__}: {str(g)[:120]}", tape=list(t),
+                                  expected="a value (fake(S) returns under the same tape policies, and S % v accepts v)")
+                        ctx.violation(f"the substituted schema cannot be generated from ({type(g).__name__})", rp)
+                        break
         # (b) everything the result accepts or generates carries v
         for origin, w in ssuite.third_values(ctx, c, limit=ctx.scale(8, 16)):
             probes += 1
@@ -152,7 +164,7 @@ def run(ctx):
         samples=samples,
         correspondence={"suite": "substitute", "cases": len(modelled), "mismatches": len(bad),
                         "unmodelled": len(cases) - len(modelled)},
-        oracle_cases=ok_cases, probes=probes, distribution=dist,
+        oracle_cases=ok_cases, probes=probes, distribution=dict(dist, usable_checked=usable_checked),
     )
 
 
